@@ -40,6 +40,37 @@ CLAIMED = {
             "the extents computed from UFL + ufcx.h, for all iterations and all valid entity/permutation values; cell kernels never "
             "dereference entity/permutation pointers (E2).",
             "Corpus-bounded over programs; extents oracle from UFL form data; A-INT.", "sidecar contracts + VC generation (z3); per-kernel SMT interval obligations", "4 C08"),
+    "C09": ("proof", "dtype->C type maps, REAL/SCALAR type names, math-function names for every emittable function x 4 scalar types x "
+            "argument type against the C99 naming scheme, complex literal form (exhaustive on the real formatter); merge_dtypes and "
+            "_math_function simplifications (E1); conj/sum/product/division factorisation handlers as coefficient-wise identities on "
+            "real UFL operands with symbolic complex values (E1, structurally bounded shapes); complex_mode switch (syntactic); slot "
+            "selection on corpus modules (bounded).",
+            "Numeric agreement of the four kernels and UFL's complex_mode lowering not decided; C99 naming as oracle.",
+            "exhaustive finite enumeration on the real formatter + VC generation from the Python AST (z3)", "4 C09"),
+    "C10": ("proof", "tensor-product quadrature is the row-major product of the 1D rules (E1), tensor_shape under part=diagonal (E1), "
+            "sum factorisation restricted to cell integrals (syntactic), full table = outer product of factor tables and blockmaps on "
+            "corpus IRs (bounded), extents/frame of every corpus kernel generated with sum_factorization=True and part=diagonal (E2).",
+            "Equality of the tensors under the options is numeric and not decided; F14 (RuntimeError when sum factorisation does not apply) "
+            "is not checked.", "VC generation (z3) + per-kernel SMT obligations + run-time IR invariants (bounded)", "4 C10"),
+    "C11": ("proof", "each integral of a group keeps its own degree/scheme (E1 fragment of _analyze_form); every contribution to A of every "
+            "corpus kernel depends on tables of its own quadrature rule (E2 rule-consistency).",
+            "Exactness of basix rules and UFL degree estimation external; corpus-bounded over programs.",
+            "fragment contracts + VC generation (z3); per-kernel def-use obligations", "4 C11"),
+    "C12": ("other", "every syntactic source of seed-/history-dependence (set construction, id, hash, ufl_id, count, module-level mutable "
+            "state) in the code-generation modules is discharged by a recorded reason (exhaustive over AST sites); second half bounded: "
+            "corpus modules regenerated in fresh processes with other hash seeds and histories are byte-identical.",
+            "Site discharge reasons are reviewed by hand (trusted); determinism of UFL/basix/numpy assumed.",
+            "syntactic information-flow obligations over the AST + subprocess regeneration (bounded)", "4 C12"),
+    "C13": ("proof", "_compute_option_signature injective on all 256 settings of the code-selecting options and independent of insertion "
+            "order (exhaustive, real function); compute_signature separates sampled forms/tags/point sets; names are identifiers; object "
+            "names distinct in every corpus module (bounded).",
+            "sha1 and UFL signatures external; cross-process stability exercised by the C12 replay only.",
+            "exhaustive finite enumeration on the real functions + bounded pair checks", "4 C13"),
+    "C18": ("proof", "numba formatter round trip for every constructible depth-2 tree (exhaustive, Python ast); integral_data contract "
+            "(shared with C); numba module valid Python, descriptors equal to the C module's, declared array sizes cover the UFCx extents "
+            "on every corpus file (bounded).",
+            "Numeric equality of kernels and numba compilation not decided; math-function spelling of the numba formatter (np.*) not checked.",
+            "exhaustive finite enumeration with an independent parser + run-time descriptor contracts (bounded)", "4 C18"),
     "C14": ("proof", "per-process ordering contracts of the cache protocol proved on every control-flow path of the real jit.py "
             "functions, including every exceptional exit of the fault model: O1 lock before build, O2 marker only after the C "
             "compiler returned, O3 waiters load only after seeing the marker and never build, O7 builder loads after the build.",
@@ -69,7 +100,7 @@ CLAIMED = {
             "C compiler not run; corpus-bounded over programs.", "per-kernel scoping obligations over the LNodes program", "4 C19"),
 }
 
-REASON_NOT_YET = "check not built yet (build in progress; see DESIGN.md section 4 for the plan)"
+REASON_NOT_YET = "check not built yet"
 
 
 def main():
@@ -107,7 +138,7 @@ def main():
                  kind_free_text="E1: symbolic interpreter over the Python AST of the real functions, sidecar contracts, z3/cvc5"),
             dict(name="kernelvc", path="kernelvc/", serves_properties=["C01", "C02", "C03", "C04", "C05", "C07", "C08", "C19"],
                  kind_free_text="E2: SMT obligations over each LNodes kernel the real generators produce for a corpus of forms"),
-            dict(name="runtime", path="runtime/", serves_properties=["C04", "C05", "C06"],
+            dict(name="runtime", path="runtime/", serves_properties=["C04", "C05", "C06", "C09", "C10", "C12", "C13", "C16", "C18", "C19", "C20"],
                  kind_free_text="E3: run-time descriptor contracts on corpus modules (bounded; never counted as proved)"),
         ],
         checks=checks,
